@@ -142,7 +142,12 @@ func derefPtr(t reflect.Type, v reflect.Value) (reflect.Type, reflect.Value, ref
 	for {
 		if isPtr(t) {
 			t = t.Elem()
-			v = v.Elem()
+			if v.IsValid() {
+				// Elem of a nil pointer is the zero
+				// Value; it cannot be dereferenced
+				// any further.
+				v = v.Elem()
+			}
 			continue
 		}
 		break
